@@ -117,6 +117,40 @@ def larger_cases(draw):
     return case
 
 
+def _binding_candidate(style, seed):
+    m = 5 + seed % 4
+    smalls = S.splitmix(seed, m, 0, 20)
+    total = sum(smalls)
+    r = S.splitmix(seed + 7, 3, 0, 8)
+    if style == "half":            # one item of about half the rest
+        vals = smalls + [max(1, total // 2 + r[0] - 4)]
+    elif style == "two":           # two items that together about match the rest
+        a = total // 3 + (r[1] * max(1, total // 3)) // 8
+        vals = smalls + [max(1, a), max(1, total - a - r[0])]
+    else:                          # one or two big items among small ones
+        nb = 1 + seed % 2
+        vals = S.splitmix(seed + 3, nb, 15, 45) + smalls
+    keys = S.splitmix(seed + 11, len(vals), 0, 2 ** 30)
+    return [vals[i] for i in sorted(range(len(vals)), key=lambda i: (keys[i], i))]
+
+
+@st.composite
+def binding_cases(draw):
+    """Inputs on which the cardinality bound really binds (constrained optimum > unconstrained optimum), built by expanding a drawn seed
+    until a candidate binds: a few big items worth about half / all of many small ones.  Construction, not rejection: the strategy
+    always returns a case, and nearly always a binding one."""
+    style = draw(st.sampled_from(["half", "half", "two", "big+small"]))
+    d = draw(st.sampled_from([1, 1, 2]))
+    seed = draw(st.integers(0, 2 ** 40))
+    values = None
+    for i in range(40):
+        values = _binding_candidate(style, seed + 1000003 * i)
+        if oracles.opt_balanced(values, d) > oracles.opt_balanced(values, None):
+            break
+    return {"alg": "cbldm", "values": values, "numbins": 2, "pres": draw(st.sampled_from(["list", "list", "list", "dict-str"])),
+            "nseed": draw(st.integers(0, 5)), "profile": "binding-" + style, "opts": {"partition_difference": d}}
+
+
 def valid_larger(case):
     if not cases.valid_partition_case(dict(case, alg="greedy")) or case.get("numbins") != 2:
         return False
@@ -141,6 +175,9 @@ def legs(tier):
             "bound, |sum A - sum B| == minimum over all subsets obeying the bound (DP over (count,sum) states); non-trivial "
             "= the bound binds (constrained optimum > unconstrained optimum)",
             strategy=random_cases(), n_quick=5000, n_thorough=100000, valid=valid, floor=0.03),
+        Leg("binding", evaluate, "hypothesis: 6-10 items built so that the bound (1 or 2) binds - one item of about half the rest, two items "
+            "that together about match the rest, one or two big items among small ones; same oracle and rule",
+            strategy=binding_cases(), n_quick=6000, n_thorough=120000, valid=valid, floor=0.5),
         Leg("larger", evaluate, "hypothesis: 13-17 items (values 0..100, 1..1000, few big + many small, 2-3 distinct values), bound default / 1 / 2 / 3: "
             "beyond 2^n brute force, exact with the DP oracle; same rule", strategy=larger_cases(), n_quick=500, n_thorough=10000,
             valid=valid_larger, floor=0.03),
